@@ -40,7 +40,7 @@ pub fn issuer_spec(rng: &mut Rng, key: &str, iss_idx: usize) -> IssuerSpec {
             }
         }
         "ed" => Some("EdDSA".to_string()),
-        _ => Some("HS256".to_string()),
+        _ => Some(rng.pick(&["HS256", "HS256", "HS384", "HS512"]).to_string()),
     };
     IssuerSpec { key: key.to_string(), alg, iss: ISS_NAMES[iss_idx % ISS_NAMES.len()].to_string() }
 }
